@@ -74,19 +74,19 @@ class AvroWriter(AbstractWriter):
         self.writer.write(r._packdict())
 
     def flush(self):
-        if not self.fp:
-            return
-        if not self.writer:
-            self.writer = fastavro.write.Writer(
-                self.fp,
-                fastavro.parse_schema({"type": "record", "name": "empty"}),
-                codec=self.codec,
-            )
-        self.writer.flush()
+        if self.writer:
+            self.writer.flush()
 
     def close(self) -> None:
         if self.fp:
-            self.flush()
+            if not self.writer:
+                # no record was written: leave a valid, empty Avro container
+                self.writer = fastavro.write.Writer(
+                    self.fp,
+                    fastavro.parse_schema({"type": "record", "name": "empty"}),
+                    codec=self.codec,
+                )
+            self.writer.flush()
             if not is_stdout(self.fp):
                 self.fp.close()
         self.fp = None
